@@ -23,9 +23,8 @@ Proof.
 Qed.
 
 (* the attach events of a caller holding segment sid *)
-Definition attach_events (sid : nat) (n : N) (ops : list aop) : list gev := map (GAttach sid n) ops.
-Definition all_attach_events (ch : chain) (x : extra) (f : list N) (k : key) (sid : nat) : list gev :=
-  flat_map (fun n => attach_events sid n (caller_ops ch x f n)) (krange k).
+Definition pair_events (sid : nat) (ps : list (N * aop)) : list gev :=
+  map (fun p => GAttach sid (fst p) (snd p)) ps.
 
 Lemma set_data_heap sid bs c sg :
   nth_error (c_heap c) sid = Some sg ->
@@ -48,134 +47,85 @@ Proof.
   rewrite upd_upd. reflexivity.
 Qed.
 
-Lemma grun_attach_ops sid n ops : forall c pend sg bs,
-  nth_error (c_heap c) sid = Some sg -> sg_data sg = Some bs ->
-  grun (mkSys c pend) (attach_events sid n ops)
-  = Some (mkSys (set_data sid (attach_ops n ops bs) c) pend).
+Lemma set_data_same sid bs c sg :
+  nth_error (c_heap c) sid = Some sg -> sg_data sg = Some bs -> set_data sid bs c = c.
 Proof.
-  induction ops as [|op r IH]; intros c pend sg bs N0 Dd; simpl.
-  - unfold set_data. rewrite N0. f_equal. f_equal. destruct c as [mx m h]. simpl in *. f_equal.
-    clear -N0 Dd. revert sid N0. induction h as [|a t IHh]; intros [|sid] H; simpl in *; try discriminate.
-    + inversion H; subst. destruct sg; simpl in *; subst; reflexivity.
-    + f_equal. apply IHh. auto.
+  intros N0 Dd. unfold set_data. rewrite N0. destruct c as [mx m h]. simpl in *. f_equal.
+  revert sid N0. induction h as [|a t IH]; intros [|sid] H; simpl in *; try discriminate.
+  - inversion H; subst. destruct sg; simpl in *; subst; reflexivity.
+  - f_equal. apply IH. auto.
+Qed.
+
+Lemma grun_attach_pairs sid ps : forall c pend sg bs,
+  nth_error (c_heap c) sid = Some sg -> sg_data sg = Some bs ->
+  grun (mkSys c pend) (pair_events sid ps)
+  = Some (mkSys (set_data sid (attach_pairs ps bs) c) pend).
+Proof.
+  induction ps as [|p r IH]; intros c pend sg bs N0 Dd; simpl.
+  - rewrite (set_data_same _ _ _ _ N0 Dd). reflexivity.
   - unfold attach_at. rewrite N0, Dd.
-    destruct (set_data_heap sid (blks_apply n (fun b => a_step b op) bs) c sg N0) as (H1 & _ & _).
+    destruct (set_data_heap sid (blks_apply (fst p) (fun b => a_step b (snd p)) bs) c sg N0) as (H1 & _ & _).
     erewrite IH; [|exact H1|reflexivity].
     rewrite (set_data_twice _ _ _ _ _ N0). reflexivity.
 Qed.
 
-Lemma grun_attach_all ch x f sid ns : forall c pend sg bs,
-  nth_error (c_heap c) sid = Some sg -> sg_data sg = Some bs ->
-  grun (mkSys c pend) (flat_map (fun n => attach_events sid n (caller_ops ch x f n)) ns)
-  = Some (mkSys (set_data sid (fold_left (fun bs n => attach_ops n (caller_ops ch x f n) bs) ns bs) c) pend).
+(* ---------- what one Get attaches ---------- *)
+Lemma trace_stop_ok ch ft ns : forall i j, trace_stop ch ft i ns = (j, true) -> j = length ns.
 Proof.
-  induction ns as [|n r IH]; intros c pend sg bs N0 Dd; simpl.
-  - apply (grun_attach_ops sid 0 [] c pend sg bs N0 Dd).
-  - rewrite grun_app. rewrite (grun_attach_ops sid n _ c pend sg bs N0 Dd).
-    destruct (set_data_heap sid (attach_ops n (caller_ops ch x f n) bs) c sg N0) as (H1 & _ & _).
-    erewrite IH; [|exact H1|reflexivity].
-    rewrite (set_data_twice _ _ _ _ _ N0). reflexivity.
+  induction ns as [|n r IH]; intros i j H; simpl in H.
+  - inversion H; reflexivity.
+  - destruct (_ || _); [discriminate|].
+    destruct (trace_stop ch ft (S i) r) as [j' ok] eqn:E. inversion H; subst. simpl. f_equal. eapply IH; eauto.
 Qed.
 
-(* one sequential Get on cache kind b = this run of the fine-grained system *)
-Lemma cget_is_grun ch op cl cl' r nb nx b :
-  g_base op = Some b ->
-  cget ch op cl = Some (cl', r, nb, nx) ->
-  exists sid tr,
-    grun (mkSys (pick b cl) []) tr = Some (mkSys (pick b cl') [])
-    /\ (forall bs, r = GOk bs ->
-          (exists sg, nth_error (c_heap (pick b cl')) sid = Some sg /\ sg_data sg = Some bs)
-          /\ forall n o, In n (krange (g_key op)) -> In o (caller_ops ch (g_extra op) (g_filter op) n) ->
-                         In (GAttach sid n o) tr)
-    /\ (forall sid' d, In (GCache (ERead sid' (Some d))) tr -> d = fresh ch (Some b) (g_key op))
-    /\ (forall sid' n o, In (GAttach sid' n o) tr ->
-          In n (krange (g_key op)) /\ In o (caller_ops ch (g_extra op) (g_filter op) n)).
+Lemma in_pairs_of (F : N -> list aop) ns n o : In (n, o) (pairs_of F ns) <-> In n ns /\ In o (F n).
 Proof.
-  intros Hb H. unfold cget in H. rewrite Hb in H.
-  destruct (lookup (g_key op) (g_kept op) (pick b cl)) as [[[c1 sid] cr]|] eqn:L; [|discriminate].
-  set (res := if g_failb op then None else Some (fresh ch (Some b) (g_key op))) in *.
-  destruct (read sid res c1) as [[[c2 ret] asked]|] eqn:Rd; [|discriminate].
-  assert (PP : forall c, pick b (put b c cl) = c) by (intros; destruct b; reflexivity).
-  assert (BASE : grun (mkSys (pick b cl) []) [GCache (ELookup (g_key op) (g_kept op)); GCache (ERead sid res)]
-                 = Some (mkSys c2 [])).
-  { simpl. rewrite L. simpl. rewrite Nat.eqb_refl, Rd. reflexivity. }
-  assert (RES : forall sid' d, In (GCache (ERead sid' (Some d)))
-                 [GCache (ELookup (g_key op) (g_kept op)); GCache (ERead sid res)] ->
-                 d = fresh ch (Some b) (g_key op)).
-  { intros sid' d [Hin|[Hin|[]]]; [discriminate|]. inversion Hin. unfold res in *.
-    destruct (g_failb op); [discriminate|]. congruence. }
-  destruct ret as [bs|].
-  - destruct (read_spec _ _ _ _ _ _ Rd) as (sg & N0 & _ & _ & R3 & R4 & R5).
-    assert (N2 : exists sg2, nth_error (c_heap c2) sid = Some sg2 /\ sg_data sg2 = Some bs).
-    { rewrite R3. eexists. split; [apply nth_error_upd_eq; eapply nth_error_lt; eauto|]. simpl.
-      destruct asked; [destruct (R5 eq_refl); congruence|destruct (R4 eq_refl); congruence]. }
-    destruct N2 as (sg2 & N2 & D2).
-    destruct (g_extra op) eqn:X.
-    + (* no extra request *)
-      inversion H; subst cl' r nb nx. clear H.
-      exists sid, [GCache (ELookup (g_key op) (g_kept op)); GCache (ERead sid res)].
-      rewrite PP. split; [|split; [|split]].
-      * rewrite BASE. f_equal. f_equal. unfold set_data. rewrite N2.
-        destruct c2 as [mx m h]. simpl in *. f_equal.
-        clear -N2 D2. revert sid N2. induction h as [|a t IHh]; intros [|sid] Hn; simpl in *; try discriminate.
-        -- inversion Hn; subst. destruct sg2; simpl in *; subst; reflexivity.
-        -- f_equal. apply IHh. auto.
-      * intros bs0 E. inversion E; subst bs0. split.
-        -- destruct (set_data_heap sid bs c2 sg2 N2) as (H1 & _ & _). eexists. split; [exact H1|reflexivity].
-        -- intros n o _ [].
-      * exact RES.
-      * intros sid' n o [Hin|[Hin|[]]]; discriminate.
-    + (* logs *)
-      destruct (g_failx op) eqn:FX.
-      * inversion H; subst cl' r nb nx. clear H.
-        exists sid, [GCache (ELookup (g_key op) (g_kept op)); GCache (ERead sid res)].
-        rewrite PP. split; [exact BASE|]. split; [intros bs0 E; discriminate|]. split; [exact RES|].
-        intros sid' n o [Hin|[Hin|[]]]; discriminate.
-      * inversion H; subst cl' r nb nx. clear H.
-        exists sid, ([GCache (ELookup (g_key op) (g_kept op)); GCache (ERead sid res)]
-                     ++ all_attach_events ch XLogs (g_filter op) (g_key op) sid).
-        rewrite PP, grun_app, BASE. split; [|split; [|split]].
-        -- unfold all_attach_events. rewrite (grun_attach_all ch XLogs (g_filter op) sid _ c2 [] sg2 bs N2 D2).
-           reflexivity.
-        -- intros bs0 E. inversion E; subst bs0. split.
-           ++ destruct (set_data_heap sid (attach_all ch XLogs (g_filter op) (g_key op) bs) c2 sg2 N2) as (H1 & _ & _).
-              eexists. split; [exact H1|reflexivity].
-           ++ intros n o Hn Ho. apply in_or_app. right. unfold all_attach_events.
-              apply in_flat_map. exists n. split; auto. unfold attach_events. apply in_map. auto.
-        -- intros sid' d Hin. apply in_app_or in Hin. destruct Hin as [Hin|Hin]; [eauto|].
-           unfold all_attach_events in Hin. apply in_flat_map in Hin. destruct Hin as (n & _ & Hin).
-           apply in_map_iff in Hin. destruct Hin as (o & E & _). discriminate.
-        -- intros sid' n o Hin. apply in_app_or in Hin. destruct Hin as [[Hin|[Hin|[]]]|Hin]; try discriminate.
-           unfold all_attach_events in Hin. apply in_flat_map in Hin. destruct Hin as (n' & Hn & Hin).
-           apply in_map_iff in Hin. destruct Hin as (o' & E & Ho). inversion E; subst. auto.
-    + (* receipts *)
-      destruct (g_failx op) eqn:FX.
-      * inversion H; subst cl' r nb nx. clear H.
-        exists sid, [GCache (ELookup (g_key op) (g_kept op)); GCache (ERead sid res)].
-        rewrite PP. split; [exact BASE|]. split; [intros bs0 E; discriminate|]. split; [exact RES|].
-        intros sid' n o [Hin|[Hin|[]]]; discriminate.
-      * inversion H; subst cl' r nb nx. clear H.
-        exists sid, ([GCache (ELookup (g_key op) (g_kept op)); GCache (ERead sid res)]
-                     ++ all_attach_events ch XReceipts (g_filter op) (g_key op) sid).
-        rewrite PP, grun_app, BASE. split; [|split; [|split]].
-        -- unfold all_attach_events. rewrite (grun_attach_all ch XReceipts (g_filter op) sid _ c2 [] sg2 bs N2 D2).
-           reflexivity.
-        -- intros bs0 E. inversion E; subst bs0. split.
-           ++ destruct (set_data_heap sid (attach_all ch XReceipts (g_filter op) (g_key op) bs) c2 sg2 N2) as (H1 & _ & _).
-              eexists. split; [exact H1|reflexivity].
-           ++ intros n o Hn Ho. apply in_or_app. right. unfold all_attach_events.
-              apply in_flat_map. exists n. split; auto. unfold attach_events. apply in_map. auto.
-        -- intros sid' d Hin. apply in_app_or in Hin. destruct Hin as [Hin|Hin]; [eauto|].
-           unfold all_attach_events in Hin. apply in_flat_map in Hin. destruct Hin as (n & _ & Hin).
-           apply in_map_iff in Hin. destruct Hin as (o & E & _). discriminate.
-        -- intros sid' n o Hin. apply in_app_or in Hin. destruct Hin as [[Hin|[Hin|[]]]|Hin]; try discriminate.
-           unfold all_attach_events in Hin. apply in_flat_map in Hin. destruct Hin as (n' & Hn & Hin).
-           apply in_map_iff in Hin. destruct Hin as (o' & E & Ho). inversion E; subst. auto.
-  - (* the base fetch failed *)
-    inversion H; subst cl' r nb nx. clear H.
-    exists sid, [GCache (ELookup (g_key op) (g_kept op)); GCache (ERead sid res)].
-    rewrite PP. split; [exact BASE|]. split; [intros bs0 E; discriminate|]. split; [exact RES|].
-    intros sid' n o [Hin|[Hin|[]]]; discriminate.
+  unfold pairs_of. rewrite in_flat_map. split.
+  - intros (m & Hm & Hin). apply in_map_iff in Hin. destruct Hin as (o' & E & Ho). inversion E; subst. auto.
+  - intros [Hn Ho]. exists n. split; auto. apply in_map. auto.
+Qed.
+
+Lemma call_plan_spec ch op ps ok nx nt :
+  chain_wf ch -> call_plan ch op = (ps, ok, nx, nt) ->
+  (forall n o, In (n, o) ps -> In n (krange (g_key op)) /\ op_ok ch n o)
+  /\ (ok = true -> forall n o, In n (krange (g_key op)) ->
+        In o (caller_ops ch (g_extra op) (g_traces op) (g_filter op) n) -> In (n, o) ps).
+Proof.
+  intros W H. unfold call_plan in H.
+  set (k := g_key op) in *.
+  assert (S1 : forall n o, In (n, o) (pairs_of (stage1_ops ch (g_extra op) (g_filter op)) (krange k)) ->
+                           In n (krange k) /\ op_ok ch n o).
+  { intros n o Hin. apply in_pairs_of in Hin. destruct Hin. split; auto. eapply stage1_ops_ok; eauto. }
+  assert (T1 : forall j n o, In (n, o) (pairs_of (trace_ops ch) (firstn j (krange k))) ->
+                           In n (krange k) /\ op_ok ch n o).
+  { intros j n o Hin. apply in_pairs_of in Hin. destruct Hin as [Hn Ho]. split.
+    - rewrite <- (firstn_skipn j (krange k)). apply in_or_app. auto.
+    - eapply trace_ops_ok; eauto. }
+  destruct (stage1_plan ch op) as [[ps1 ok1] nx1] eqn:E1.
+  assert (E1' : (ps1 = [] /\ (g_extra op = XNone \/ ok1 = false))
+                \/ (ps1 = pairs_of (stage1_ops ch (g_extra op) (g_filter op)) (krange k) /\ ok1 = true)).
+  { unfold stage1_plan in E1. destruct (g_extra op); [inversion E1; auto| |];
+      (destruct (g_failx op); inversion E1; auto). }
+  assert (P1 : forall n o, In (n, o) ps1 -> In n (krange k) /\ op_ok ch n o).
+  { destruct E1' as [[-> _]|[-> _]]; [intros n o []|exact S1]. }
+  assert (P2 : ok1 = true -> forall n o, In n (krange k) ->
+               In o (stage1_ops ch (g_extra op) (g_filter op) n) -> In (n, o) ps1).
+  { intros Hok n o Hn Ho. destruct E1' as [[-> [Hx|Hx]]|[-> _]].
+    - rewrite Hx in Ho. contradiction.
+    - congruence.
+    - apply in_pairs_of. auto. }
+  destruct (ok1 && g_traces op) eqn:Et.
+  - apply andb_true_iff in Et. destruct Et as [-> Et].
+    destruct (trace_stop ch (g_failt op) 0 (krange k)) as [j ok2] eqn:Es.
+    inversion H; subst ps ok nx nt. clear H. split.
+    + intros n o Hin. apply in_app_or in Hin. destruct Hin; eauto.
+    + intros -> n o Hn Ho. apply trace_stop_ok in Es. subst j. rewrite firstn_all.
+      unfold caller_ops in Ho. rewrite Et in Ho. apply in_or_app. apply in_app_or in Ho. destruct Ho as [Ho|Ho].
+      * left. apply P2; auto.
+      * right. apply in_pairs_of. auto.
+  - inversion H; subst ps ok nx nt. clear H. split; auto.
+    intros -> n o Hn Ho. rewrite andb_true_l in Et. unfold caller_ops in Ho. rewrite Et, app_nil_r in Ho.
+    apply P2; auto.
 Qed.
 
 (* ---------- every key in the map points to a segment of that key ---------- *)
@@ -264,145 +214,166 @@ Proof. destruct b, b'; simpl; congruence. Qed.
 Lemma pick_put b c cl : pick b (put b c cl) = c.
 Proof. destruct b; reflexivity. Qed.
 
-Lemma set_data_same sid bs c sg :
-  nth_error (c_heap c) sid = Some sg -> sg_data sg = Some bs -> set_data sid bs c = c.
-Proof.
-  intros N0 Dd. unfold set_data. rewrite N0. destruct c as [mx m h]. simpl in *. f_equal.
-  revert sid N0. induction h as [|a t IH]; intros [|sid] H; simpl in *; try discriminate.
-  - inversion H; subst. destruct sg; simpl in *; subst; reflexivity.
-  - f_equal. apply IH. auto.
-Qed.
-
-(* one Get on cache kind b extends a reachable history of that cache *)
-Lemma cget_extends ch mx op cl cl' r nb nx b tr :
+(* One Get on cache kind b = a run of the fine-grained system: LOOKUP, READ
+   whose answer (if any) is the chain's blocks of the key, then exactly the
+   operations of [call_plan], all honest; it extends a reachable history; a
+   successful result is the data of the segment it was handed and has the view
+   of the uncached result. *)
+Lemma cget_extends ch mx op cl cl' r nb nx nt b tr :
   chain_wf ch -> g_base op = Some b ->
   greach ch b mx (mkSys (pick b cl) []) tr ->
-  cget ch op cl = Some (cl', r, nb, nx) ->
-  exists tr', greach ch b mx (mkSys (pick b cl') []) tr'
+  cget ch op cl = Some (cl', r, nb, nx, nt) ->
+  exists sid evs,
+    grun (mkSys (pick b cl) []) evs = Some (mkSys (pick b cl') [])
+    /\ greach ch b mx (mkSys (pick b cl') []) (tr ++ evs)
+    /\ (forall sid' d, In (GCache (ERead sid' (Some d))) evs -> d = fresh ch (Some b) (g_key op))
+    /\ (forall sid' n o, In (GAttach sid' n o) evs -> sid' = sid /\ In n (krange (g_key op)) /\ op_ok ch n o)
     /\ forall bs, r = GOk bs ->
-         Forall2 (same_view (g_extra op) (g_filter op)) bs
-                 (uget ch (Some b) (g_extra op) (g_filter op) (g_key op)).
+         (exists sg, nth_error (c_heap (pick b cl')) sid = Some sg /\ sg_data sg = Some bs)
+         /\ (forall n o, In n (krange (g_key op)) ->
+               In o (caller_ops ch (g_extra op) (g_traces op) (g_filter op) n) -> In (GAttach sid n o) evs)
+         /\ Forall2 (same_view (g_extra op) (g_traces op) (g_filter op)) bs
+                    (uget ch (Some b) (g_extra op) (g_traces op) (g_filter op) (g_key op)).
 Proof.
   intros W Hb R H.
   pose proof (greach_map_ok _ _ _ _ _ R) as M. simpl in M.
-  unfold cget in H. rewrite Hb in H.
+  unfold cget in H. destruct (call_plan ch op) as [[[ps ok] nx0] nt0] eqn:CP. rewrite Hb in H.
+  destruct (call_plan_spec ch op ps ok nx0 nt0 W CP) as [CP1 CP2].
   destruct (lookup (g_key op) (g_kept op) (pick b cl)) as [[[c1 sid] cr]|] eqn:L; [|discriminate].
   destruct (map_ok_lookup _ _ _ _ _ _ M L) as (M1 & sg1 & N1 & K1).
   set (res := if g_failb op then None else Some (fresh ch (Some b) (g_key op))) in *.
   destruct (read sid res c1) as [[[c2 ret] asked]|] eqn:Rd; [|discriminate].
-  assert (S1 : gstep (mkSys (pick b cl) []) (GCache (ELookup (g_key op) (g_kept op))) = Some (mkSys c1 [sid])).
+  set (ev1 := GCache (ELookup (g_key op) (g_kept op))). set (ev2 := GCache (ERead sid res)).
+  assert (S1 : gstep (mkSys (pick b cl) []) ev1 = Some (mkSys c1 [sid])).
   { simpl. rewrite L. reflexivity. }
-  assert (S2 : gstep (mkSys c1 [sid]) (GCache (ERead sid res)) = Some (mkSys c2 [])).
+  assert (S2 : gstep (mkSys c1 [sid]) ev2 = Some (mkSys c2 [])).
   { simpl. rewrite Nat.eqb_refl, Rd. reflexivity. }
-  assert (R1 : greach ch b mx (mkSys c1 [sid]) (tr ++ [GCache (ELookup (g_key op) (g_kept op))])).
+  assert (R1 : greach ch b mx (mkSys c1 [sid]) (tr ++ [ev1])).
   { econstructor; eauto. simpl. exact I. }
-  set (tr2 := (tr ++ [GCache (ELookup (g_key op) (g_kept op))]) ++ [GCache (ERead sid res)]).
-  assert (R2 : greach ch b mx (mkSys c2 []) tr2).
+  assert (R2 : greach ch b mx (mkSys c2 []) ((tr ++ [ev1]) ++ [ev2])).
   { econstructor; eauto. simpl. unfold res. destruct (g_failb op); [exact I|].
     unfold seg_key_of. rewrite N1, K1. reflexivity. }
+  assert (BASE : grun (mkSys (pick b cl) []) [ev1; ev2] = Some (mkSys c2 [])).
+  { unfold grun. rewrite S1, S2. reflexivity. }
+  assert (RES : forall sid' d, In (GCache (ERead sid' (Some d))) [ev1; ev2] -> d = fresh ch (Some b) (g_key op)).
+  { intros sid' d [Hin|[Hin|[]]]; [discriminate|]. inversion Hin. unfold res in *.
+    destruct (g_failb op); [discriminate|]. congruence. }
   destruct (read_spec _ _ _ _ _ _ Rd) as (sg & N0 & _ & _ & R3 & R4 & R5).
   assert (SG : sg = sg1) by congruence. subst sg1.
-  (* the generic attach phase *)
-  assert (ATT : forall x bs, g_extra op = x -> ret = Some bs ->
-            exists tr', greach ch b mx (mkSys (set_data sid (attach_all ch x (g_filter op) (g_key op) bs) c2) []) tr'
-              /\ Forall2 (same_view x (g_filter op)) (attach_all ch x (g_filter op) (g_key op) bs)
-                         (uget ch (Some b) x (g_filter op) (g_key op))).
-  { intros x bs X Er. subst ret.
-    assert (N2 : exists sg2, nth_error (c_heap c2) sid = Some sg2 /\ sg_data sg2 = Some bs /\ sg_key sg2 = g_key op).
+  destruct ret as [bs|].
+  - assert (N2 : exists sg2, nth_error (c_heap c2) sid = Some sg2 /\ sg_data sg2 = Some bs /\ sg_key sg2 = g_key op).
     { rewrite R3. eexists. split; [apply nth_error_upd_eq; eapply nth_error_lt; eauto|]. simpl. split; auto.
       destruct asked; [destruct (R5 eq_refl); congruence|destruct (R4 eq_refl); congruence]. }
     destruct N2 as (sg2 & N2 & D2 & K2).
-    set (evs := all_attach_events ch x (g_filter op) (g_key op) sid).
-    assert (G : grun (mkSys c2 []) evs = Some (mkSys (set_data sid (attach_all ch x (g_filter op) (g_key op) bs) c2) [])).
-    { unfold evs, all_attach_events. rewrite (grun_attach_all ch x (g_filter op) sid _ c2 [] sg2 bs N2 D2). reflexivity. }
+    inversion H; subst cl' r nb nx nt. clear H. rewrite pick_put.
+    set (evs := pair_events sid ps).
+    assert (G : grun (mkSys c2 []) evs = Some (mkSys (set_data sid (attach_pairs ps bs) c2) [])).
+    { apply (grun_attach_pairs sid ps c2 [] sg2 bs N2 D2). }
+    assert (EV : forall sid' n o, In (GAttach sid' n o) evs -> sid' = sid /\ In (n, o) ps).
+    { intros sid' n o Hin. unfold evs, pair_events in Hin. apply in_map_iff in Hin.
+      destruct Hin as ([n' o'] & E & Hp). inversion E; subst. auto. }
     assert (HON : forall e, In e evs -> exists sid' n o, e = GAttach sid' n o /\ op_ok ch n o).
-    { intros e He. unfold evs, all_attach_events in He. apply in_flat_map in He. destruct He as (n & Hn & He).
-      apply in_map_iff in He. destruct He as (o & <- & Ho). exists sid, n, o. split; auto.
-      eapply caller_ops_ok; eauto. }
+    { intros e He. unfold evs, pair_events in He. apply in_map_iff in He. destruct He as ([n o] & <- & Hp).
+      exists sid, n, o. split; auto. apply (CP1 n o Hp). }
     pose proof (greach_grun_attach ch b mx evs _ _ _ R2 G HON) as R4'.
-    exists (tr2 ++ evs). split; auto.
-    destruct (set_data_heap sid (attach_all ch x (g_filter op) (g_key op) bs) c2 sg2 N2) as (H1 & _ & _).
-    pose proof (cached_equiv_uncached ch b mx _ _ W R4' sid _ _ x (g_filter op) H1 eq_refl) as CE.
-    simpl in CE. rewrite K2 in CE. apply CE.
-    intros n o Hn Ho. apply in_or_app. right. unfold evs, all_attach_events.
-    apply in_flat_map. exists n. split; auto. apply in_map. auto. }
-  destruct ret as [bs|].
-  - destruct (g_extra op) eqn:X.
-    + (* no extra request: attach_all with XNone is the identity *)
-      inversion H; subst cl' r nb nx. clear H. rewrite pick_put.
-      destruct (ATT XNone bs eq_refl eq_refl) as (tr' & Rf & V).
-      assert (ID : attach_all ch XNone (g_filter op) (g_key op) bs = bs).
-      { unfold attach_all. simpl. generalize bs as l. induction (krange (g_key op)) as [|n t IHt]; intros l; simpl; auto. }
-      rewrite ID in *. exists tr'. split; auto. intros bs0 E. inversion E; subst. auto.
-    + destruct (g_failx op).
-      * inversion H; subst cl' r nb nx. clear H. rewrite pick_put. exists tr2. split; auto. intros bs0 E; discriminate.
-      * inversion H; subst cl' r nb nx. clear H. rewrite pick_put.
-        destruct (ATT XLogs bs eq_refl eq_refl) as (tr' & Rf & V).
-        exists tr'. split; auto. intros bs0 E. inversion E; subst. auto.
-    + destruct (g_failx op).
-      * inversion H; subst cl' r nb nx. clear H. rewrite pick_put. exists tr2. split; auto. intros bs0 E; discriminate.
-      * inversion H; subst cl' r nb nx. clear H. rewrite pick_put.
-        destruct (ATT XReceipts bs eq_refl eq_refl) as (tr' & Rf & V).
-        exists tr'. split; auto. intros bs0 E. inversion E; subst. auto.
-  - inversion H; subst cl' r nb nx. clear H. rewrite pick_put. exists tr2. split; auto. intros bs0 E; discriminate.
+    exists sid, ([ev1; ev2] ++ evs). split; [|split; [|split; [|split]]].
+    + rewrite grun_app, BASE. exact G.
+    + replace (tr ++ [ev1; ev2] ++ evs) with (((tr ++ [ev1]) ++ [ev2]) ++ evs); [exact R4'|].
+      rewrite <- !app_assoc. reflexivity.
+    + intros sid' d Hin. apply in_app_or in Hin. destruct Hin as [Hin|Hin]; [eauto|].
+      unfold evs, pair_events in Hin. apply in_map_iff in Hin. destruct Hin as (p & E & _). discriminate.
+    + intros sid' n o Hin. apply in_app_or in Hin. destruct Hin as [[Hin|[Hin|[]]]|Hin]; try discriminate.
+      destruct (EV _ _ _ Hin) as [-> Hp]. destruct (CP1 n o Hp). auto.
+    + intros bs0 E. destruct ok; [|discriminate]. inversion E; subst bs0. clear E.
+      destruct (set_data_heap sid (attach_pairs ps bs) c2 sg2 N2) as (H1 & _ & _).
+      assert (ALL : forall n o, In n (krange (g_key op)) ->
+                In o (caller_ops ch (g_extra op) (g_traces op) (g_filter op) n) ->
+                In (GAttach sid n o) ([ev1; ev2] ++ evs)).
+      { intros n o Hn Ho. apply in_or_app. right. unfold evs, pair_events.
+        apply in_map_iff. exists (n, o). split; auto. }
+      split; [eexists; split; [exact H1|reflexivity]|]. split; [exact ALL|].
+      pose proof (cached_equiv_uncached ch b mx _ _ W R4' sid _ _ (g_extra op) (g_traces op) (g_filter op) H1 eq_refl) as CE.
+      simpl in CE. rewrite K2 in CE. apply CE.
+      intros n o Hn Ho. apply in_or_app. right. unfold evs, pair_events.
+      apply in_map_iff. exists (n, o). split; auto.
+  - inversion H; subst cl' r nb nx nt. clear H. rewrite pick_put.
+    exists sid, [ev1; ev2]. split; [exact BASE|]. split; [|split; [exact RES|split]].
+    + replace (tr ++ [ev1; ev2]) with ((tr ++ [ev1]) ++ [ev2]); [exact R2|]. rewrite <- app_assoc. reflexivity.
+    + intros sid' n o [Hin|[Hin|[]]]; discriminate.
+    + intros bs0 E; discriminate.
 Qed.
 
 (* a Get that does not use cache kind b leaves it alone *)
-Lemma cget_other ch op cl cl' r nb nx b :
-  g_base op <> Some b -> cget ch op cl = Some (cl', r, nb, nx) -> pick b cl' = pick b cl.
+Lemma cget_other ch op cl cl' r nb nx nt b :
+  g_base op <> Some b -> cget ch op cl = Some (cl', r, nb, nx, nt) -> pick b cl' = pick b cl.
 Proof.
-  intros Hb H. unfold cget in H. destruct (g_base op) as [b'|] eqn:E.
+  intros Hb H. unfold cget in H. destruct (call_plan ch op) as [[[ps ok] nx0] nt0].
+  destruct (g_base op) as [b'|] eqn:E.
   - assert (b <> b') by congruence.
     destruct (lookup (g_key op) (g_kept op) (pick b' cl)) as [[[c1 sid] cr]|]; [|discriminate].
     destruct (read sid _ c1) as [[[c2 ret] asked]|]; [|discriminate].
-    destruct ret as [bs|].
-    + destruct (g_extra op); [inversion H; subst; apply put_other; auto| |];
-        (destruct (g_failx op); inversion H; subst; apply put_other; auto).
-    + inversion H; subst. apply put_other; auto.
-  - destruct (g_extra op); [inversion H; subst; reflexivity| |];
-      (destruct (g_failx op); inversion H; subst; reflexivity).
+    destruct ret as [bs|]; inversion H; subst; apply put_other; auto.
+  - inversion H; subst. reflexivity.
 Qed.
 
-Lemma cget_nocache ch op cl cl' r nb nx bs :
-  g_base op = None -> cget ch op cl = Some (cl', r, nb, nx) -> r = GOk bs ->
-  bs = uget ch None (g_extra op) (g_filter op) (g_key op).
+Lemma call_plan_ok_all ch op ps nx nt :
+  call_plan ch op = (ps, true, nx, nt) ->
+  ps = pairs_of (stage1_ops ch (g_extra op) (g_filter op)) (krange (g_key op))
+       ++ (if g_traces op then pairs_of (trace_ops ch) (krange (g_key op)) else []).
 Proof.
-  intros Hb H E. subst r. unfold cget in H. rewrite Hb in H. unfold uget.
-  destruct (g_extra op) eqn:X.
-  - inversion H; subst. unfold attach_all. simpl.
-    generalize (fresh ch None (g_key op)) as l.
-    induction (krange (g_key op)) as [|n t IHt]; intros l; simpl; auto.
-  - destruct (g_failx op); inversion H; subst. reflexivity.
-  - destruct (g_failx op); inversion H; subst. reflexivity.
+  unfold call_plan. intros H.
+  destruct (stage1_plan ch op) as [[ps1 ok1] nx1] eqn:E1.
+  assert (P : ok1 = true -> ps1 = pairs_of (stage1_ops ch (g_extra op) (g_filter op)) (krange (g_key op))).
+  { intros ->. unfold stage1_plan in E1. destruct (g_extra op).
+    - inversion E1; subst. unfold pairs_of. simpl. clear. induction (krange (g_key op)); simpl; auto.
+    - destruct (g_failx op); inversion E1; auto.
+    - destruct (g_failx op); inversion E1; auto. }
+  destruct ok1; simpl in H.
+  - destruct (g_traces op).
+    + destruct (trace_stop ch (g_failt op) 0 (krange (g_key op))) as [j ok2] eqn:Es.
+      inversion H; subst. apply trace_stop_ok in Es. subst j. rewrite firstn_all. rewrite P; auto.
+    + inversion H; subst. rewrite app_nil_r. auto.
+  - inversion H.
+Qed.
+
+Lemma cget_nocache ch op cl cl' r nb nx nt bs :
+  g_base op = None -> cget ch op cl = Some (cl', r, nb, nx, nt) -> r = GOk bs ->
+  bs = uget ch None (g_extra op) (g_traces op) (g_filter op) (g_key op).
+Proof.
+  intros Hb H E. subst r. unfold cget in H.
+  destruct (call_plan ch op) as [[[ps ok] nx0] nt0] eqn:CP. rewrite Hb in H.
+  destruct ok; inversion H; subst. unfold uget.
+  rewrite (call_plan_ok_all _ _ _ _ _ CP). reflexivity.
 Qed.
 
 Lemma cget_run_transparent_gen ch mx : chain_wf ch ->
   forall ops cl cl' outs,
   (forall b, exists tr, greach ch b mx (mkSys (pick b cl) []) tr) ->
   cget_run ch cl ops = Some (cl', outs) ->
-  Forall2 (fun op out => transparent_result ch op (fst (fst out))) ops outs.
+  Forall2 (fun op out => transparent_result ch op (fst (fst (fst out)))) ops outs.
 Proof.
   intros W. induction ops as [|op r IH]; intros cl cl' outs HR H; simpl in H.
   - inversion H; subst. constructor.
-  - destruct (cget ch op cl) as [[[[cl1 res] nb] nx]|] eqn:G; [|discriminate].
+  - destruct (cget ch op cl) as [[[[[cl1 res] nb] nx] nt]|] eqn:G; [|discriminate].
     destruct (cget_run ch cl1 r) as [[cl2 outs']|] eqn:RR; [|discriminate].
     inversion H; subst cl' outs. clear H. constructor.
     + simpl. intros bs E. destruct (g_base op) as [b|] eqn:Hb.
-      * destruct (HR b) as (tr & Rb). destruct (cget_extends ch mx op cl cl1 res nb nx b tr W Hb Rb G) as (tr' & _ & V).
-        auto.
+      * destruct (HR b) as (tr & Rb).
+        destruct (cget_extends ch mx op cl cl1 res nb nx nt b tr W Hb Rb G) as (sid & evs & _ & _ & _ & _ & V).
+        apply (V bs E).
       * eapply cget_nocache; eauto.
     + apply (IH cl1 cl2 outs'); [|exact RR]. intros b. destruct (HR b) as (tr & Rb).
       destruct (g_base op) as [b'|] eqn:Hb.
       * assert (Dk : {b = b'} + {b <> b'}) by (destruct b, b'; (left; reflexivity) || (right; discriminate)).
         destruct Dk as [<-|Hne].
-        -- destruct (cget_extends ch mx op cl cl1 res nb nx b tr W Hb Rb G) as (tr' & R' & _). eauto.
-        -- rewrite (cget_other ch op cl cl1 res nb nx b); [eauto|congruence|auto].
-      * rewrite (cget_other ch op cl cl1 res nb nx b); [eauto|congruence|auto].
+        -- destruct (cget_extends ch mx op cl cl1 res nb nx nt b tr W Hb Rb G) as (sid & evs & _ & R' & _). eauto.
+        -- rewrite (cget_other ch op cl cl1 res nb nx nt b); [eauto|congruence|auto].
+      * rewrite (cget_other ch op cl cl1 res nb nx nt b); [eauto|congruence|auto].
 Qed.
 
 Lemma cget_run_transparent ch mx ops cl outs :
   chain_wf ch -> cget_run ch (new_client mx) ops = Some (cl, outs) ->
-  Forall2 (fun op out => transparent_result ch op (fst (fst out))) ops outs.
+  Forall2 (fun op out => transparent_result ch op (fst (fst (fst out)))) ops outs.
 Proof.
   intros W H. eapply cget_run_transparent_gen; eauto.
   intros b. exists []. destruct b; apply gr_init.
